@@ -298,13 +298,37 @@ def tla_record(rec):
     return "[" + ", ".join("%s |-> %s" % (k, tla_value(v)) for k, v in rec.items()) + "]"
 
 
+def api_noise(k=0):
+    """Calls of the public API that must not change anything (the table in force is re-installed unchanged):
+    interleaved with the recorded calls so that a side effect of one API function on another shows up."""
+    sf = selfies_mod()
+    cur = sf.get_semantic_constraints()
+    a = sf.get_semantic_robust_alphabet()
+    if k % 3 == 0:
+        sf.set_semantic_constraints(dict(cur))          # same table again (flushes the memo layers)
+        sf.get_semantic_robust_alphabet()
+    sf.get_preset_constraints(("default", "octet_rule", "hypervalent")[k % 3])
+    s = "[C][=O].[nop][N]"
+    list(sf.split_selfies(s))
+    sf.len_selfies(s)
+    sf.get_alphabet_from_selfies([s])
+    vocab = {"[C]": 0, "[=O]": 1, ".": 2, "[nop]": 3, "[N]": 4}
+    sf.selfies_to_encoding(s, vocab, pad_to_len=7, enc_type="both")
+    sf.encoding_to_selfies([0, 1, 3], {i: t for t, i in vocab.items()}, "label")
+    return len(a)
+
+
 def record_decoder(inputs, table, compat=False):
     """Drive the real decoder; one record per call, logged at the call's return / raise."""
     set_table(table)
     recs = []
     try:
-        for toks in inputs:
+        for n_, toks in enumerate(inputs):
+            if n_ % 40 == 7:
+                api_noise(n_ // 40)
             kind, val = call_decoder("".join(toks), compat)
+            if n_ % 5 == 0 and call_decoder("".join(toks), compat) != (kind, val):      # purity: same call again
+                kind = "NotRepeatable(%s)" % kind
             recs.append({"inp": list(toks), "kind": kind, "out": val})
     finally:
         set_table("default")
@@ -492,7 +516,9 @@ def record_roundtrip(smiles_list, table, strict=True):
     set_table(table)
     recs = []
     try:
-        for smi in smiles_list:
+        for n_, smi in enumerate(smiles_list):
+            if n_ % 40 == 3:
+                api_noise(n_ // 40)
             kind, sel, why = call_encoder(smi, strict)
             rec = {"smi": smi, "strict": bool(strict), "kind": kind, "why": why, "sel": "", "dec": "", "reenc": ""}
             again = call_encoder(smi, strict)
